@@ -784,6 +784,10 @@ class RequestHandler(BaseProtocol, Generic[_Request]):
                         self.close()
 
                 payload.set_exception(_PAYLOAD_ACCESS_ERROR)
+                # The upgrade this (already answered) request asked for takes effect in
+                # the parser only once its body has been read: settle it now, or the
+                # next request would sit in _message_tail for good.
+                self._settle_declined_upgrade()
 
             except asyncio.CancelledError:
                 self.log_debug("Ignored premature client disconnection")
@@ -817,18 +821,8 @@ class RequestHandler(BaseProtocol, Generic[_Request]):
             if self.transport is not None:
                 self.transport.close()
 
-    async def finish_response(
-        self, request: BaseRequest, resp: StreamResponse, start_time: float | None
-    ) -> tuple[StreamResponse, bool]:
-        """Prepare the response and write_eof, then log access.
-
-        This has to
-        be called within the context of any exception so the access logger
-        can get exception information. Returns True if the client disconnects
-        prematurely.
-        """
-        request._finish()
-
+    def _settle_declined_upgrade(self) -> None:
+        """Switch back to HTTP after an upgrade request was answered without upgrading."""
         # Handle feeding the message tail following an upgrade request that
         # was declined.
         # The upgrade request is the last request before the parser paused,
@@ -879,6 +873,20 @@ class RequestHandler(BaseProtocol, Generic[_Request]):
                 # This shouldn't be possible. If a future refactor results in this
                 # failing, then the code may need to be updated to set the waiter.
                 assert self._waiter is None
+
+    async def finish_response(
+        self, request: BaseRequest, resp: StreamResponse, start_time: float | None
+    ) -> tuple[StreamResponse, bool]:
+        """Prepare the response and write_eof, then log access.
+
+        This has to
+        be called within the context of any exception so the access logger
+        can get exception information. Returns True if the client disconnects
+        prematurely.
+        """
+        request._finish()
+
+        self._settle_declined_upgrade()
         try:
             prepare_meth = resp.prepare
         except AttributeError:
